@@ -16,7 +16,8 @@ import RModel.Lemmas.LineCompose
   Vocabulary:  `Words ws` every word ≥ 2 lower-case ASCII letters;  `Neutral A ws` no acronym interference (C18);
   `V12` the twelve boundary-visible styles;  `NeutralDelim d` every byte of `d` is ASCII, not a letter/digit, not `-`/`_`
   (so `""`, spaces, quotes, brackets, `/`, `::`, `.`, `,`, line ends);  `profileOf st` the separator/case profile of a
-  multi-word rendering in style `st`;  `keyUnambiguousByTable st` = at most one style of the generated constraint table
+  multi-word rendering in style `st`, `styleWordBad st` its word bit (some word is not capital + non-capitals);
+  `keyUnambiguousByTable st` = at most one style of the generated constraint table
   admits that profile.
 -/
 namespace C06
@@ -111,26 +112,33 @@ theorem all_upper_needs_no_acronym :
 
 -- ══ clause 1: pieces ═══════════════════════════════════════════════════════════════════════════════════════════
 
-/-- at most one style of the generated constraint table admits the profile of a multi-word rendering in style `st` -/
+/-- at most one style of the generated constraint table admits the profile and the word bit of a multi-word rendering in
+    style `st` (word bit: some word is not "capital followed by non-capitals") -/
 def keyUnambiguousByTable (st : Style) : Bool :=
-  decide ((Gen.allStyles.filter (nec (profileOf st))).length ≤ 1)
+  decide ((Gen.allStyles.filter (nec (profileOf st) (styleWordBad st))).length ≤ 1)
 
-/-- nine styles whose key is unambiguous by the table — today and also with the proposed repair of the Title/Sentence row -/
-theorem unambiguous_styles_core :
-    ∀ st ∈ [Style.snake, .kebab, .camel, .screamingSnake, .train, .screamingTrain, .dot, .lowerSentence, .title],
-      keyUnambiguousByTable st = true := by decide
+/-- with the Title row repaired (70c1048: Title = `TitleWordsPattern`, Sentence = `TitlePattern`) no boundary-visible style
+    is left out: the key of every one of the twelve is unambiguous by the table -/
+theorem unambiguous_styles_all : ∀ st ∈ V12, keyUnambiguousByTable st = true := by decide
 
-/-- today: every boundary-visible style but Sentence (Title and Sentence share one row of `Style::constraints`).
-    TIED TO THE DEFECT: changes when the row is repaired (see seeded/_fixes/c06_title_vs_sentence.props.diff). -/
-theorem unambiguous_styles_today :
-    V12.filter (fun st => !keyUnambiguousByTable st) = [.sentence] := by decide
+/-- before the repair Title and Sentence shared the row `(TitlePattern, ' ')`: on that row the Sentence rendering "Foo bar"
+    is admitted by BOTH styles (kernel-evaluated on the explicitly old row), which made it "ambiguous" and let the
+    resolver's precedence pick Title — the finding `sentence_rendered_as_title`, fixed by 70c1048 -/
+theorem C06_before_fix_shared_row :
+    (checkCase A b!"Foo bar" .titlePattern && checkSep b!"Foo bar" (some 32)) = true ∧
+    caseNec (profileOf .sentence) (styleWordBad .sentence) .titlePattern = true ∧
+    Gen.defaultPrecedence.find? (fun s => [Style.title, .sentence].contains s) = some .title ∧
+    toStyle A [b!"baz", b!"qux"] .title = b!"Baz Qux" ∧
+    -- the repaired row rejects it
+    checkCase A b!"Foo bar" .titleWordsPattern = false ∧
+    caseNec (profileOf .sentence) (styleWordBad .sentence) .titleWordsPattern = false := by decide +kernel
 
 /-- the key is unambiguous, so `generate_hunks` takes the variant-map entry -/
 theorem variant_key_unambiguous {A : Acr} {ws : List Bytes} {st : Style} (h2 : 2 ≤ ws.length) (hw : Words ws)
     (hst : st ∈ V12) (ht : keyUnambiguousByTable st = true) :
     isAmbiguous A (toStyle A ws st) Gen.allStyles = false := by
   have hp := render_profile A h2 hw hst
-  have hle := filterCompatible_length_le (A := A) hp Gen.allStyles
+  have hle := filterCompatible_length_le (A := A) hp (render_wordBad A h2 hw hst) Gen.allStyles
   simp only [keyUnambiguousByTable, decide_eq_true_eq] at ht
   simp only [isAmbiguous, decide_eq_false_iff_not]
   omega
@@ -189,7 +197,7 @@ theorem exact_pass_finds_occurrence {ks : List Bytes} {d₁ x d₂ : Bytes} (hx 
     * plural variants off (`--no-plural-variants`; with them the pluralizer is a further parameter, checked differentially) -/
 structure Guard (cfg : Cfg) (styles : List Style) (st : Style) : Prop where
   some_styles : buildStylesList cfg.opts = some styles
-  not_skipped : skipExact cfg.search (stylesSlice cfg.opts) = false
+  not_skipped : skipExact cfg.A cfg.search (stylesSlice cfg.opts) = false
   enabled : st ∈ styles
   visible : st ∈ V12
   unambiguous : keyUnambiguousByTable st = true
@@ -297,7 +305,31 @@ example {d₁ d₂ : Bytes} (h1 : NeutralDelim d₁) (h2 : NeutralDelim d₂) :
     (by decide +kernel) (by decide +kernel)
     ⟨by decide, by decide, by decide, by decide, by decide, rfl, env0_ok.2⟩ h1 h2 rfl
 
-/-- the property at full strength (false today, see the witnesses) -/
+/-- the repaired clause: a Sentence-case occurrence of a term of two or more words is rewritten in Sentence case -/
+theorem sentence_rewritten_in_sentence_case {cfg : Cfg} (hA : AcrOk cfg.A) (hS : AcrStable cfg.A)
+    {ws_s ws_r : List Bytes} {sst rst : Style} {styles : List Style} {d₁ d₂ : Bytes}
+    (h2 : 2 ≤ ws_s.length) (hws : Words ws_s) (hwr : Words ws_r) (hrne : ws_r ≠ [])
+    (hNs : Neutral cfg.A ws_s) (hNr : Neutral cfg.A ws_r) (hsst : sst ∈ V12) (hrst : rst ∈ V12)
+    (hUs : sst ∈ upperStyles → UpperSafe cfg.A ws_s) (hUr : rst ∈ upperStyles → UpperSafe cfg.A ws_r)
+    (hsearch : cfg.search = toStyle cfg.A ws_s sst) (hreplace : cfg.replace = toStyle cfg.A ws_r rst)
+    (hstyles : buildStylesList cfg.opts = some styles) (hskip : skipExact cfg.A cfg.search (stylesSlice cfg.opts) = false)
+    (hen : Style.sentence ∈ styles) (hpl : cfg.plurals = false) (hco : cfg.env.CoerceOk)
+    (h1 : NeutralDelim d₁) (hd2 : NeutralDelim d₂)
+    (hcomp : cfg.env.compound (d₁ ++ toStyle cfg.A ws_s .sentence ++ d₂) = []) :
+    rewriteLine cfg (d₁ ++ toStyle cfg.A ws_s .sentence ++ d₂) = some (d₁ ++ toStyle cfg.A ws_r .sentence ++ d₂) :=
+  same_style_partial hA hS h2 hws hwr hrne hNs hNr hsst hrst hUs hUr hsearch hreplace
+    ⟨hstyles, hskip, hen, by decide, by decide, hpl, hco⟩ h1 hd2 hcomp
+
+/-- … instantiated: default options, `foo_bar → baz_qux`, every pair of neutral delimiters -/
+example {d₁ d₂ : Bytes} (h1 : NeutralDelim d₁) (h2 : NeutralDelim d₂) :
+    rewriteLine (cfg0 {} b!"foo_bar" b!"baz_qux") (d₁ ++ b!"Foo bar" ++ d₂) = some (d₁ ++ b!"Baz qux" ++ d₂) :=
+  sentence_rewritten_in_sentence_case (cfg := cfg0 {} b!"foo_bar" b!"baz_qux") (ws_s := [b!"foo", b!"bar"])
+    (ws_r := [b!"baz", b!"qux"]) (sst := .snake) (rst := .snake) (styles := Gen.defaultStyles)
+    acrOk_default acrStable_default (by decide) (by decide) (by decide) (by decide) (by decide +kernel)
+    (by decide +kernel) (by decide) (by decide) (fun h => absurd h (by decide)) (fun h => absurd h (by decide))
+    (by decide +kernel) (by decide +kernel) (by decide) (by decide) (by decide) rfl env0_ok.2 h1 h2 rfl
+
+/-- the property at full strength (still false: the two remaining findings, see the witnesses) -/
 def same_style_full : Prop :=
   ∀ (opts : StyleOpts) (ws_s ws_r : List Bytes) (sst rst st : Style) (d₁ d₂ : Bytes),
     2 ≤ ws_s.length → Words ws_s → Words ws_r → ws_r ≠ [] → Neutral A ws_s → Neutral A ws_r →
@@ -344,17 +376,14 @@ theorem compound_skips_the_term_itself {A : Acr} (hA : AcrOk A) (hS : AcrStable 
 
 -- ══ witnesses (kernel-evaluated; replayed on the real code by checks/c06.py) ═══════════════════════════
 
-/-- finding `sentence_rendered_as_title`: "Foo bar" is compatible with Title AND Sentence, the resolver's precedence picks
-    Title, the line becomes "Baz Qux" -/
-theorem C06_witness_sentence :
-    filterCompatible A b!"Foo bar" Gen.allStyles = [.title, .sentence] ∧
-    baseReplacement A env0 (cfg0 {} b!"foo_bar" b!"baz_qux").vmap b!"Foo bar" b!"baz_qux" = some (.ambiguity, b!"Baz Qux") ∧
-    rewriteLine (cfg0 {} b!"foo_bar" b!"baz_qux") b!"\"Foo bar\"\n" = some b!"\"Baz Qux\"\n" ∧
-    toStyle A [b!"baz", b!"qux"] .sentence = b!"Baz qux" := by decide +kernel
+/-- repaired (was finding `sentence_rendered_as_title`): "Foo bar" is compatible with Sentence only, the map entry is used -/
+theorem C06_sentence_repaired :
+    filterCompatible A b!"Foo bar" Gen.allStyles = [.sentence] ∧
+    filterCompatible A b!"Foo Bar" Gen.allStyles = [.title] ∧
+    filterCompatible A b!"Foo" Gen.allStyles = [.pascal, .train, .title, .sentence] ∧
+    rewriteLine (cfg0 {} b!"foo_bar" b!"baz_qux") b!"\"Foo bar\"\n" = some b!"\"Baz qux\"\n" := by decide +kernel
 
-/-- … unless the replacement itself was typed in Sentence case -/
-theorem C06_witness_sentence_typed :
-    rewriteLine (cfg0 {} b!"foo_bar" b!"Baz qux") b!"Foo bar\n" = some b!"Baz qux\n" := by decide +kernel
+-- ── finding `exclude_all_reenables_defaults` (witness + refutation of the full statement; both go when it is repaired) ──
 
 /-- finding `exclude_all_reenables_defaults`: excluding every default style yields `None`, the scanner's own default list
     is used and the excluded snake_case occurrence is rewritten -/
@@ -363,17 +392,36 @@ theorem C06_witness_exclude_all :
     rewriteLine (cfg0 { excl := Gen.defaultStyles } b!"foo_bar" b!"baz_qux") b!"foo_bar\n" = some b!"baz_qux\n" := by
   decide +kernel
 
+/-- the full statement is false; refuted on the `exclude_all` witness (an excluded snake_case occurrence is rewritten).
+    TIED TO THAT FINDING. -/
+theorem same_style_full_false_exclude_all : ¬ same_style_full := by
+  intro h
+  have := h { excl := Gen.defaultStyles } [b!"foo", b!"bar"] [b!"baz", b!"qux"] .snake .snake .snake [] [] (by decide)
+    (by decide) (by decide) (by decide) (by decide +kernel) (by decide +kernel) (by decide +kernel) (by decide +kernel)
+    (by decide) (by decide) (by decide) (by decide) (by decide)
+  revert this
+  decide +kernel
+
+-- ── (stable) ─────────────────────────────────────────────────────────────────────────────────────────────────
+
+/-- … and also when the replacement itself was typed in Sentence case (held before the repair too) -/
+theorem C06_sentence_typed :
+    rewriteLine (cfg0 {} b!"foo_bar" b!"Baz qux") b!"Foo bar\n" = some b!"Baz qux\n" := by decide +kernel
+
+-- ── finding `single_style_separatorless_search_unmatched` (witness + refutation; both go when it is repaired) ──────
+
 /-- finding `single_style_separatorless_search_unmatched`: search typed `fooBar`, `--only-styles camel` -/
 theorem C06_witness_single_style :
-    skipExact b!"fooBar" (stylesSlice { only := [.camel] }) = true ∧
+    skipExact A b!"fooBar" (stylesSlice { only := [.camel] }) = true ∧
     rewriteLine (cfg0 { only := [.camel] } b!"fooBar" b!"bazQux") b!"fooBar\n" = some b!"fooBar\n" ∧
     rewriteLine (cfg0 { only := [.camel, .snake] } b!"fooBar" b!"bazQux") b!"fooBar\n" = some b!"bazQux\n" := by
   decide +kernel
 
-/-- the full statement is false; refuted on the `exclude_all` witness (an excluded snake_case occurrence is rewritten) -/
-theorem same_style_full_false : ¬ same_style_full := by
+/-- the full statement is false; refuted on the `single_style` witness (`fooBar`, `--only-styles camel`: nothing is renamed).
+    TIED TO THAT FINDING. -/
+theorem same_style_full_false_single_style : ¬ same_style_full := by
   intro h
-  have := h { excl := Gen.defaultStyles } [b!"foo", b!"bar"] [b!"baz", b!"qux"] .snake .snake .snake [] [] (by decide)
+  have := h { only := [.camel] } [b!"foo", b!"bar"] [b!"baz", b!"qux"] .camel .camel .camel [] [] (by decide)
     (by decide) (by decide) (by decide) (by decide +kernel) (by decide +kernel) (by decide +kernel) (by decide +kernel)
     (by decide) (by decide) (by decide) (by decide) (by decide)
   revert this
